@@ -295,7 +295,7 @@ pub fn row_sweep(max_len: usize) -> Vec<(usize, u64)> {
 
 pub fn run(ctx: &mut Ctx) {
     witness_self_check();
-    ctx.rule = "ranges by row-pattern construction over the 25 rows / 169 rank-pair cells: each cell absent / complete at one of three weights, a random subset of rows active, up to 6 (thorough 10) cells made partial with mixed weights; weights from a palette (so equal-weight neighbours are common) and arbitrary f32 bit patterns in [0,1] incl. subnormals (no -0.0) and the one f32 in (0,1] that is sensitive to double rounding through f64 (0x15ae43fd); dense ranges of (nearly) all 1326 combos with pairwise different, mostly tiny weights (texts of up to 75 KB); exhaustive: every absent/weight-a/weight-b pattern of every row with <= 7 cells (thorough: every row, 3^13 pocket patterns and 3^12..3 per high card and kind). Oracle: to_string().parse() is Ok, equal, and every weight bit-identical. Tokens: every well-formed HandRangeToken::new(kind, w) over all 3,796 token ASTs x weights, text must parse back to an equal token. Non-trivial (ranges): text has a merged token and a weight != 1, or a leftover combo; distinct by text.".into();
+    ctx.rule = "ranges by row-pattern construction over the 25 rows / 169 rank-pair cells: each cell absent / complete at one of three weights, a random subset of rows active, up to 6 (thorough 10) cells made partial with mixed weights; weights from a palette (so equal-weight neighbours are common) and arbitrary f32 bit patterns in [0,1] incl. subnormals (no -0.0) and the one f32 in (0,1] that is sensitive to double rounding through f64 (0x15ae43fd); dense ranges of (nearly) all 1326 combos with pairwise different, mostly tiny weights (texts of up to 75 KB); exhaustive: every absent/weight-a/weight-b pattern of every row with <= 7 cells (thorough: every row, 3^13 pocket patterns and 3^12..3 per high card and kind). Oracle: to_string().parse() is Ok, equal, and every weight bit-identical. Tokens: every well-formed HandRangeToken::new(kind, w) over all 3,796 token ASTs x weights, text must parse back to an equal token. Two of three range cases are preceded on their thread by a formatting call of another range into a sink that fails after 0-39 bytes; stream long_format_histories: a row pattern formatted, the same row with one cell changed, 230-245 or 65,500-65,515 ranges of another row, then the first range 48 more times - same text, and it parses back. Non-trivial (ranges): text has a merged token and a weight != 1, or a leftover combo; distinct by text.".into();
     ctx.assumptions = vec!["-0.0 is excluded from the weight domain: the parser cannot produce it and it prints as '-0'".into(), "NaN weights are outside [0,1]".into()];
     let mp = ctx.tier.pick(6, 10);
     let cases = ctx.tier.pick(20_000, 300_000);
@@ -362,6 +362,9 @@ pub fn run(ctx: &mut Ctx) {
         check_token,
         |c| json!(espada_token(&c.tok, c.weight).to_string()),
     );
+    // long formatting histories on one thread (C17's generator; here the probe texts must also parse back)
+    let cases = ctx.tier.pick(32, 600);
+    ctx.run_random_brief(StreamCfg::new("long_format_histories", crate::props::c17::CLASSES, cases).shrink(20), crate::props::c17::format_history_strategy, |c| crate::props::c17::check_format_history(c, true), |c| json!({"row": c.row, "fillers": c.fillers, "probes": c.probes}));
     ctx.extra.insert("exhaustive_over".into(), json!(format!("every pattern of every row with <= {} cells ({} ranges); all 3,796 tokens x {} weights", ctx.tier.pick(7, 13), sweep.len(), ws.len())));
     if ctx.tier == Tier::Thorough && !ctx.failed() {
         crate::fuzzrun::campaign(ctx, "fz_range", 1500, 16, 400);
@@ -376,6 +379,7 @@ pub fn all_tokens_cached() -> &'static Vec<Tok> {
 pub fn replay(stream: &str, path: &str, case: &Value) -> i32 {
     match stream {
         "all_tokens" | "tokens_any_weight" => replay_case::<TokenCase>("C06", path, case, check_token),
+        "long_format_histories" => replay_case::<crate::props::c17::FormatHistory>("C06", path, case, |c| crate::props::c17::check_format_history(c, true)),
         _ => replay_case::<RangeCase>("C06", path, case, check_range),
     }
 }
